@@ -137,7 +137,7 @@
                 while i < K {
                     if pending[i] {
                         oracle!(p, P12 | P11, now[2 * i + lw[i] as usize] > snap[i],
-                            "C12 oneshot: a receiver pending at the send/close was not woken through its latest waker");
+                            "C11+C12 oneshot: a receiver pending at the send/close was not woken through its latest waker");
                     }
                     i += 1;
                 }
